@@ -230,5 +230,5 @@ def stochastic_process(
             state.tensors[i], state.tensors[j] = tensor_left_new, tensor_right_new
 
     # Normalize MPS after jump
-    state.normalize("B", decomposition="SVD")
+    state.normalize("B", decomposition="SVD", min_bond_dim=sim_params.min_bond_dim)
     return state
